@@ -273,18 +273,22 @@ func VHarness_StoreThenLoad() {
 	VReach("store-load-checked")
 }
 
-var vPathChoices = [...]string{"example.com/pkg", "example.com/tested", "example.com/tested_test", "example.com/tested/sub", ""}
+var vPathChoices = [...]string{"example.com/pkg", "example.com/tested", "example.com/tested_test", "example.com/tested/sub", "", "example.com/foo", "example.com/foo_test", "example.com/foo_test_test"}
+var vTestedChoices = [...]string{"example.com/tested", "example.com/foo_test", ""}
 
 // The package under test (and its _test twin) is never stored or loaded.
 func VHarness_TestedPackageNeverCached() {
 	vReset()
 	bc := vCache()
+	bc.TestedPackage = vTestedChoices[VNondetInt("tested", 0, len(vTestedChoices)-1)] // also a package whose own path ends in _test, and no tested package at all
 	k := VNondetInt("path", 0, len(vPathChoices)-1)
 	p := vPathChoices[k]
-	isTested := p == "example.com/tested" || p == "example.com/tested_test"
+	isTested := p != "" && (p == bc.TestedPackage || p == bc.TestedPackage+"_test")
 	stored := bc.Store(&vPayload{data: 1}, p, time.Unix(100, 0))
 	if isTested {
 		VAssert(!stored && len(vE.files) == 0 && len(vE.trace) == 0, "the package under test is never stored")
+	} else if p != "" && !VNondetBool("fault_mkdir") && !VNondetBool("fault_createtemp") && !VNondetBool("fault_encode") && !VNondetBool("fault_gzipflush") && !VNondetBool("fault_rename") {
+		VAssert(stored, "every other package is stored when nothing fails")
 	}
 	out := &vPayload{}
 	vE.decodes = 0
